@@ -570,8 +570,8 @@ class Machine:
         vals = [int(v) for v in val]
         if sat is False and self._nonsymbolic(a):
             return ["concrete", vals]
-        if sat is False and vals == [self.resolved_value(h, e)]:
-            return ["pinned", vals]
+        if sat is False and h.cls in ("SolverReplacement", "SolverReplacementVSA"):
+            return ["vacuous", vals]
         if len(vals) > n:
             self.bad("too-many-results", h, op, e=e, n=n, got=vals)
         if len(set(vals)) != len(vals):
@@ -610,8 +610,8 @@ class Machine:
         tups = [tuple(int(x) for x in t) for t in val]
         if sat is False and all(self._nonsymbolic(a) for a in as_):
             return ["concrete", tups]
-        if sat is False and tups == [tuple(self.resolved_value(h, e) for e in es)]:
-            return ["pinned", tups]
+        if sat is False and h.cls in ("SolverReplacement", "SolverReplacementVSA"):
+            return ["vacuous", tups]
         if len(tups) > n:
             self.bad("too-many-results", h, op, es=es, n=n, got=tups)
         if len(set(tups)) != len(tups):
@@ -653,7 +653,15 @@ class Machine:
             if opt is not None:
                 self.bad("spurious-unsat", h, op, e=e, signed=signed, extra=extras)
             return ["unsat-error"]
+        if opt is None and mode == "contain":
+            return ["approx-on-unsat", repr(val)[:20]]  # nothing exists that could have been excluded
+        if not isinstance(val, int) or isinstance(val, bool):
+            self.bad("optimum-not-an-integer", h, op, e=e, signed=signed, got=repr(val)[:60])
         r = int(val)
+        if opt is None and h.cls in ("SolverReplacement", "SolverReplacementVSA"):
+            # replacement frontends resolve expressions through their replacements without consulting the solver, by
+            # design; on an unsatisfiable constraint set whatever comes back is vacuous (satisfiable() is still exact)
+            return ["vacuous", r]
         if opt is None:
             if self._nonsymbolic(a):
                 return ["concrete", r]
@@ -709,11 +717,8 @@ class Machine:
         got = bool(val)
         if sat is False and self._nonsymbolic(a) and (not isinstance(v, list) or self._nonsymbolic(va)):
             return ["concrete", got]
-        if sat is False:
-            pe = self.resolved_value(h, e)
-            pv = v if not isinstance(v, list) else (int(va.concrete_value) if self._nonsymbolic(va) else self.resolved_value(h, v))
-            if pe is not None and pv is not None and got == (pe == pv):
-                return ["pinned", got]
+        if sat is False and h.cls in ("SolverReplacement", "SolverReplacementVSA"):
+            return ["vacuous", got]
         if mode == "exact":
             if got != exp:
                 self.bad("wrong-solution", h, op, e=e, v=v, got=got, expected=exp, extra=extras)
